@@ -212,7 +212,16 @@ func runC15(c *Ctx, i int, r *rand.Rand) {
 	for k := 0; k < n; k++ {
 		var e *Exec
 		kind := ""
-		switch r.IntN(8) {
+		switch r.IntN(9) {
+		case 8:
+			s := genScenario(r, ScenOpts{Cfg: cfg}, "h")
+			if s == nil {
+				continue
+			}
+			s.Script.BadEnd = pick(r, []string{"garbage", "empty", "corrupt"})
+			s.Script.Comp, s.Script.CompressEnd = pick(r, []string{"", "gzip"}), chance(r, 50)
+			e, _ = runRPC(cfg, s.Req, s.Script, r, &execOpts{Transcoder: tUsed})
+			kind = "bad-end-of-stream"
 		case 6:
 			// a message that fails inside the decompressor or inflates past the limit (request side)
 			s := genScenario(r, ScenOpts{Cfg: cfg}, "h")
